@@ -21,7 +21,7 @@ def rand_val(rng, f):
     if f == "x":
         return rng.choice([0.29, 1.5, -2.75, 123.456, 0.00001, 0.57])
     if f == "f":
-        return rng.choice([0.0, 1.5, -0.25, 1024.0, -3.0e10, 2.0 ** -20])
+        return rng.choice([0.0, 1.5, -0.25, 1024.0, -3.0 * 2 ** 30, 2.0 ** -20])        # exactly representable in 32 bits
     if f == "d":
         return rng.choice([0.0, 0.1, -2.75, 1e300, 5e-324, 123.456])
     if f == "?":
